@@ -11,8 +11,12 @@ Monitors look only at what the real class returned/delivered and at the bytes th
 "In time": a Timeout answer before the requested time has passed (real time sequentially, virtual time under DetSched) or, in programs
 with a single waiting thread, later than timeout + 5 ms of virtual time is a violation; timeouts up to milliseconds::max() are generated
 (FC03b: the deadline arithmetic wrapped, UBSan abort / immediate Timeout).
-T8 (no data callback for a session after its close callback) is monitored on every case, mode switches of the dead id included (FC02a:
-setReadMode(Sync) then setReadMode(Async) on a closed tombstone flushed the tail through the callback; modelled as repaired)."""
+T8 (no data callback for a session after its close CALLBACK - the `gclose` event the application sees, not the handler's internal
+section) is monitored on every case, mode switches of the dead id included (FC02a: setReadMode(Sync) then setReadMode(Async) on a closed
+tombstone flushed the tail through the callback; FC03c: the handler invoked the close callbacks BEFORE it marked the session closed, so a
+setReadMode(Async) made while they ran still flushed; both modelled as repaired; ops `closew`, DetSched step `ioCloseCb`).
+Extension round: token reset (`creset`/`xr:`, WStep.reset) so that calls after a cancel read PAST the point where the cancelled call
+stopped; `recvcx` reaches the C03-d window (cancel, then data, inside one sub-interval) deterministically in the sequential lockstep."""
 import json, os, re
 from vlib.core import Ctx, hexs, unhex, ddmin, VERIF
 
@@ -37,6 +41,10 @@ OBLIGATIONS = [
      "statement": "a receive entered on an overflowed, drained buffer answers BufferOverflow (before PeerClosed)"},
     {"id": "C03_T5_nogap", "theorem": "Iora.C03.T5_no_post_gap_bytes", "kind": "proved",
      "statement": "no chunk is ever appended to the sync buffer after a chunk was dropped (true of the repaired handler, F15)"},
+    {"id": "C03_T5_gc", "theorem": "Iora.C03.T5_gap_always_reported", "kind": "proved",
+     "statement": "every disciplined schedule, tombstone GC included (FC03d repaired), outside teardown: for a session one of whose chunks was dropped, either a receive HAS answered BufferOverflow (the event is in the run) or the overflowed buffer is still in the map (so the next drained receive answers BufferOverflow) - the overflow is never forgotten"},
+    {"id": "C03_T5_gcgate", "theorem": "Iora.C03.T5_gc_keeps_unreported_overflow", "kind": "proved",
+     "statement": "a buffer the close handler's GC pass may reclaim is closed, drained and not an overflowed buffer whose overflow no receive has answered yet"},
     {"id": "C03_T6", "theorem": "Iora.C03.T6_no_lost_wakeup", "kind": "proved",
      "statement": "a parked receive whose predicate (data/closed/overflow) holds has been notified, in every reachable state"},
     {"id": "C03_T7", "theorem": "Iora.C03.T7_late_receive", "kind": "proved",
@@ -63,6 +71,18 @@ OBLIGATIONS = [
      "statement": "every disciplined schedule: after the close of sid (no flush of sid in progress at that moment) NO later step hands bytes of sid to the data callback, WHATEVER mode switches follow - setReadMode(sid, Sync/Disabled) then Async on the dead id included (FC02a repaired); the buffered tail stays retrievable through receiveSync only (the one hypothesis shown necessary by an example)"},
     {"id": "C03_T8_step", "theorem": "Iora.C03.T8_quiet_step", "kind": "proved",
      "statement": "one step, any state: a Quiet session (closed; tombstone with no flush, or nothing buffered/held once the tombstone is gone) stays Quiet and the step - ANY disciplined step - delivers nothing of it"},
+    {"id": "C03_T8_cb_mark", "theorem": "Iora.C03.T8_cb_after_mark", "kind": "proved",
+     "statement": "any state, any step: the close callback of sid (global onClose + observers) is invoked by an ioCloseCb sid step only, and only while the close handler is past the syncMutex section that marked sid closed (closed flag / tombstone, readModes erased) - FC03c repaired order"},
+    {"id": "C03_T8_cb", "theorem": "Iora.C03.T8_cb_nothing_delivered_after_close_callback", "kind": "proved",
+     "statement": "every disciplined schedule, every step that invokes the close callback of sid: neither that step nor any later step hands bytes of sid to the data callback, whatever the application does from the callback / an observer / a thread synchronising with them - unless a setReadMode(sid, Async) flush was already in progress when the close was processed (closeGrace; shown necessary by an example)"},
+    {"id": "C03_T8_cb_window", "theorem": "Iora.C03.T8_cb_no_window", "kind": "proved",
+     "statement": "every reachable state in which the close handler has marked sid closed and not yet invoked the callbacks (no flush in progress at the mark): sid is already Quiet - there is no window before the callback either"},
+    {"id": "C03_W4_core", "theorem": "Iora.C03.W4_callers_stream_is_core_stream", "kind": "proved",
+     "statement": "ANY wrapper execution (any number of receiveSyncCancellable calls, plain receives, callback deliveries, cancels and token resets, disciplined or not): the bytes the callers are handed for a session - wrapper returns, plain returns, callback deliveries; sub-call results are internal - are exactly the session's out of the core run (no sub-call's bytes are swallowed, none invented)"},
+    {"id": "C03_W4", "theorem": "Iora.C03.W4_wrapper_stream", "kind": "proved",
+     "statement": "every disciplined wrapper execution with cancels/resets in between: callers' bytes ++ in-flight ++ buffered ++ pending = accepted (= arrived when nothing was dropped), and the callers' bytes are a prefix of the arrived bytes - nothing skipped, nothing twice"},
+    {"id": "C03_W5", "theorem": "Iora.C03.W5_reset_rearms", "kind": "proved",
+     "statement": "CancellationToken::reset() between two calls changes nothing but the token: the next wrapper call is admitted (no Cancelled at entry)"},
     {"id": "C03_W0", "theorem": "Iora.C03.W0_wrapper_is_core", "kind": "proved",
      "statement": "every execution using receiveSyncCancellable is a core execution (its base steps), disciplined if the wrapper run is: T1-T7 carry over"},
     {"id": "C03_W1_ret", "theorem": "Iora.C03.W1_subcall_result_is_returned", "kind": "proved",
@@ -78,12 +98,11 @@ OBLIGATIONS = [
     {"id": "C03_W3", "theorem": "Iora.C03.W3_timeout_only_at_deadline", "kind": "proved",
      "statement": "the wrapper answers Timeout only at a loop head that found the deadline passed, never by passing a sub-call's Timeout through"},
     {"id": "C03_pinned", "theorem": "Iora.C03.skeleton_pinned", "kind": "proved",
-     "statement": "onData, receiveSync, setReadMode and step 6 of onClose have EXACTLY the skeleton the model was written against (list equality), receiveSyncCancellable is exactly the loop the wrapper model mirrors, receiveSync waits under the caller's lock until now()+timeout and answers Timeout exactly for an unsignalled wait, timeouts are saturated before clock arithmetic (FC03b), onClose step 6 erases the readModes entry exactly once and unconditionally, setReadMode returns at once for a closed tombstone before it touches readModes (FC02a) (decide)"},
+     "statement": "onData, receiveSync, setReadMode and step 6 of onClose have EXACTLY the skeleton the model was written against (list equality), receiveSyncCancellable is exactly the loop the wrapper model mirrors, receiveSync waits under the caller's lock until now()+timeout and answers Timeout exactly for an unsignalled wait, timeouts are saturated before clock arithmetic (FC03b), the close handler's mark section erases the readModes entry exactly once and unconditionally, setReadMode returns at once for a closed tombstone before it touches readModes (FC02a), the close handler marks the session closed BEFORE the global close callback and the observers, both invoked with no Transport mutex held (FC03c), and the FULL text (operators, operands) of the wait predicate, single-waiter guard, teardown guard, overflow test, GC threshold test, GC gate and both callback guards is the one the model mirrors (decide)"},
     {"id": "C03_skel", "theorem": "Iora.C03.skeleton_conforms", "kind": "proved",
      "statement": "the regenerated lock/notify skeleton has the facts the model is instantiated from: notify after write under the lock, mode read + append under one lock, callback unlocked, hasData computed from the buffer, drain keyed on the buffer, the flush switches to Async only in a section that found the buffer empty (decide)"},
 ]
 
-SIZES = [0, 1, 2, 3, 5, 10, 16, 64, 1000, 65535, 65536, 70000, 1048576]
 HUGE = [9223372036854775807, 9223372036854775, 9223372036854, 4294967296, 3000]     # ms; milliseconds::max() = "no timeout"
 
 
@@ -121,11 +140,45 @@ def gen_seq_case(rng, big):
         if rng.chance(4, 5):
             ops.append("mode %d s" % s)
             gmode[s] = "s"
+    if rng.chance(1, 8) and allow and not big and not wild:
+        # FC03d: an overflowed session closes and OTHER sessions' closes run GC passes before the reader comes back: the overflow must
+        # still be reported (low GC thresholds; the reader has drained, partly drained or not drained the buffered bytes)
+        s = sids[0]
+        gc = rng.choice([0, 0, 1, 2])
+        ops[0] = "reset %d %d %d" % (maxbuf, gc, allow)
+        if gmode.get(s) != "s":
+            ops.append("mode %d s" % s)
+            gmode[s] = "s"
+        fit = rng.range(0, min(maxbuf, 6))
+        if fit:
+            ops.append("data %d %s" % (s, hexs(payload(s, pos[s], fit))))
+            pos[s] += fit
+            pend[s] += fit
+            if rng.chance(2, 3):
+                ln = rng.choice([fit, fit, 70000, max(fit - 1, 1)])
+                ops.append("recv %d %d 0" % (s, ln))
+                pend[s] = max(0, pend[s] - ln)
+        big_ln = maxbuf - pend[s] + rng.range(1, 3)
+        ops.append("data %d %s" % (s, hexs(payload(s, pos[s], big_ln))))
+        pos[s] += big_ln
+        ovf.add(s)
+        ops.append("close %d" % s)
+        dead.add(s)
+        gmode.pop(s, None)
+        for k in range(rng.range(1, 4)):
+            ops.append("close %d" % (20 + k))       # async-only sessions closing: each close runs a GC pass above the threshold
+        for _ in range(rng.range(1, 3)):
+            ops.append("recv %d %d 0" % (s, rng.choice([1, 70000])))
     for _ in range(n):
         s = rng.choice(sids)
         if s in ovf and rng.chance(2, 3):
             s = rng.choice(sids)
         k = rng.below(100)
+        # rebalance (review F8): an overflowed buffer and a tombstone are absorbing states - do not spend most ops on them
+        if k < 42 and s in ovf and rng.chance(3, 4):
+            continue
+        if 72 <= k < 90 and s in dead and rng.chance(3, 4):
+            continue
         if k < 42:
             if s in dead and not wild:
                 continue
@@ -158,6 +211,21 @@ def gen_seq_case(rng, big):
             elif j == 3 and not cancelled.issuperset([s]):
                 ops.append("cancel %d" % s)
                 cancelled.add(s)
+            elif j in (6, 7) and s in cancelled:
+                # CancellationToken::reset(): later cancellable calls read PAST the point where the cancelled one stopped
+                ops.append("creset %d" % s)
+                cancelled.discard(s)
+            elif j in (8, 9) and allow and gmode.get(s) == "s" and s not in dead and s not in ovf and not fence and maxbuf - pend[s] >= 1 \
+                    and s not in cancelled and ln >= 1:
+                # the C03-d window, deterministically: the wrapper's sub-call is parked, the token is cancelled, THEN the chunk arrives
+                cl = rng.range(1, min(maxbuf - pend[s], 8))
+                ops.append("recvcx %d %d 2000 %s" % (s, ln, hexs(payload(s, pos[s], cl))))
+                pos[s] += cl
+                pend[s] = max(0, pend[s] + cl - ln)
+                cancelled.add(s)
+                if rng.chance(3, 4):
+                    ops.append("creset %d" % s)
+                    cancelled.discard(s)
             elif j == 4 and allow and gmode.get(s) == "s" and s not in dead and s not in ovf and not fence and maxbuf - pend[s] >= 1 and ln >= 1:
                 # a receive with a long / "infinite" timeout on a second thread; the chunk arrives once it is parked
                 cl = rng.range(1, min(maxbuf - pend[s], 8))
@@ -189,7 +257,11 @@ def gen_seq_case(rng, big):
                 continue
             if s in dead:
                 disciplined = False
-            ops.append("close %d" % s)
+            if rng.chance(1, 3):
+                # FC03c: an application thread switches the mode while the close callbacks run (close observer -> thread -> setReadMode)
+                ops.append("closew %d %s" % (s, rng.choice(["a", "a", "a", "s", "d"])))
+            else:
+                ops.append("close %d" % s)
             dead.add(s)
             gmode.pop(s, None)
             if rng.chance(1, 3):
@@ -205,7 +277,7 @@ def gen_seq_case(rng, big):
     for s in sids:
         for _ in range(pos[s] // 80000 + 2):
             ops.append("recv %d 80000 0" % s)
-    return {"cat": "seq" if disciplined else "seq-wild", "ops": ops, "maxbuf": maxbuf, "gc": gc, "disciplined": disciplined, "fence": fence, "sids": sids}
+    return {"cat": "seq" if disciplined else "seq-wild", "ops": ops, "maxbuf": maxbuf, "gc": int(ops[0].split()[2]), "disciplined": disciplined, "fence": fence, "sids": sids}
 
 
 def seq_monitor(c, impl):
@@ -224,6 +296,7 @@ def seq_monitor(c, impl):
     skip = set()
     fence = False
     cancelled = set()
+    gclosed = set()       # sids whose global close callback has been invoked (the close the APPLICATION sees)
     for op, l in zip(c["ops"], impl):
         t = op.split()
         if t[0] == "recvlong":
@@ -240,6 +313,9 @@ def seq_monitor(c, impl):
         if t[0] == "cancel":
             cancelled.add(int(t[1]))
             continue
+        if t[0] == "creset":
+            cancelled.discard(int(t[1]))
+            continue
         sid = int(t[1])
         arrived.setdefault(sid, bytearray())
         out.setdefault(sid, bytearray())
@@ -248,13 +324,15 @@ def seq_monitor(c, impl):
         evs = []
         for tok in head.split():
             for e in tok.split(";"):
+                if e.startswith("gclose:"):
+                    gclosed.add(int(e.split(":")[1]))
                 if e.startswith("cb:"):
                     _, s2, hx = e.split(":")
                     out.setdefault(int(s2), bytearray()).extend(unhex(hx))
-                    if int(s2) in dead:
-                        bad.append("T8: %d byte(s) of session %d were handed to the data callback by `%s` AFTER the session's close had been "
-                                   "processed (a closed session has no read mode and can get none: no later mode switch may flush; the "
-                                   "buffered tail is for receiveSync only)" % (len(hx) // 2, int(s2), op[:40]))
+                    if int(s2) in dead or int(s2) in gclosed:
+                        bad.append("T8: %d byte(s) of session %d were handed to the data callback by `%s` AFTER the session's close callback "
+                                   "had been invoked (a closed session has no read mode and can get none: no mode switch made from the close "
+                                   "callback on may flush; the buffered tail is for receiveSync only)" % (len(hx) // 2, int(s2), op[:40]))
         if t[0] == "data":
             chunk = unhex(t[2])
             m = mode.get(sid, "a")
@@ -262,18 +340,22 @@ def seq_monitor(c, impl):
                 if m == "s" and len(arrived[sid]) - len(out[sid]) + len(chunk) > maxbuf and sid not in ovf_expected and not fence:
                     ovf_expected.add(sid)
                 arrived[sid].extend(chunk)
-        elif t[0] in ("recv", "recvc", "recvlong"):
+        elif t[0] in ("recv", "recvc", "recvlong", "recvcx"):
             r = head.split()[0]
             if "!early" in r:
                 bad.append("T6/in-time: `%s` answered %s although the requested timeout had not passed" % (op[:60], r))
             elif "!late" in r:
                 bad.append("T6/in-time: `%s` answered %s, more than 1.5 s after its timeout" % (op[:60], r))
             r = r.split("!")[0]
-            if t[0] == "recvlong":
+            if t[0] in ("recvlong", "recvcx"):
                 chunk = unhex(t[4])
                 if mode.get(sid, "a") != "d":
                     arrived[sid].extend(chunk)
-            if t[0] == "recvc":
+            if t[0] == "recvcx":
+                if sid in cancelled and r != "err:Cancelled":
+                    bad.append("W2: receiveSyncCancellable entered with a cancelled token answered %s" % r)
+                cancelled.add(sid)      # the token is cancelled while the call is parked: ok bytes and Cancelled are both legitimate answers
+            elif t[0] == "recvc":
                 if sid in cancelled and r != "err:Cancelled":
                     bad.append("W2: receiveSyncCancellable entered with a cancelled token answered %s" % r)
                 if r == "err:Cancelled" and sid not in cancelled:
@@ -304,7 +386,11 @@ def seq_monitor(c, impl):
             elif r == "err:Timeout" and t[0] == "recvc" and t[3] == "0":
                 pass          # receiveSyncCancellable with timeout 0 never enters its loop: Timeout without looking at the buffer
             elif r == "err:Timeout":
-                if sid in ovf_seen and not fence and sid not in skip and c["gc"] >= 16:   # a GC pass may reclaim a closed, drained, overflowed tombstone
+                if (sid in ovf_expected and sid not in ovf_seen and not fence and sid not in skip and st.get("b", "-") in ("-", "0")):
+                    bad.append("T5: a chunk of session %d was dropped by an overflow, the buffered bytes are drained, and the receive `%s` "
+                               "answered Timeout: the overflow was never reported (BufferOverflow must come before anything else; a tombstone GC "
+                               "pass must not reclaim an overflowed buffer nobody has been told about)" % (sid, op[:40]))
+                if sid in ovf_seen and not fence and sid not in skip and c["gc"] >= 16:   # once REPORTED, a GC pass may reclaim a closed, drained, overflowed tombstone
                     bad.append("T5: a receive after BufferOverflow answered Timeout (overflow not sticky)")
                 if (sid in dead and sid not in eof and sid not in ovf_expected and not fence and c["gc"] >= 16
                         and bytes(out[sid]) == bytes(arrived[sid])):
@@ -320,7 +406,7 @@ def seq_monitor(c, impl):
                     # setReadMode(Async) after an overflow resumes callback delivery past the gap; the overflow is reported to
                     # synchronous readers only (recorded as an assumption) - the stream monitors stop here for this session
                     skip.add(sid)
-        elif t[0] == "close":
+        elif t[0] in ("close", "closew"):
             dead.add(sid)
             mode.pop(sid, None)
         # T1/T3/T4/T5: what has been handed out is always a prefix of what arrived (never post-gap, duplicated, reordered or Disabled bytes)
@@ -346,8 +432,33 @@ def seq_monitor(c, impl):
 
 # ------------------------------------------------------------------ DetSched programs
 def gen_sched_case(rng, idx):
-    kind = rng.choice(["parked", "midflush", "mixed", "mixed", "two-sessions", "close-race", "fence", "flush-window", "flush-window", "flush-window",
-                       "wrapper", "wrapper", "long-timeout"])
+    kind = rng.choice(["parked", "midflush", "mixed", "mixed", "two-sessions", "two-sessions", "close-race", "fence", "fence", "flush-window",
+                       "flush-window", "flush-window", "wrapper", "wrapper", "wrapper", "long-timeout", "close-window", "close-window",
+                       "second-receiver"])
+    if kind == "close-window":
+        # FC03c: the close handler racing an application thread that switches the session to Async (and back): whatever the schedule,
+        # nothing may reach the data callback once the close callback has been invoked (a flush already in progress excepted)
+        n = rng.range(1, 3)
+        io = ["d:1:%s" % hexs(payload(1, 2 * k, 2)) for k in range(n)] + ["y"] * rng.range(0, 2) + ["c:1"]
+        app = ["m:1:s"] + ["y"] * rng.range(0, 4) + ["m:1:a"]
+        if rng.chance(1, 2):
+            app += ["m:1:%s" % rng.choice(["s", "d"]), "m:1:a"]
+        app += ["r:1:100:5", "r:1:100:5"]
+        return {"cat": "sched-close-window", "seed": rng.below(2 ** 31), "timeoutOneIn": 0, "spuriousOneIn": 0, "maxbuf": 1000, "io": io,
+                "apps": [app], "sids": [1], "total": {1: 2 * n}, "uses_disabled": "m:1:d" in app, "overflow_possible": False, "fence": False,
+                "ends_async": False, "timed_threads": 1}
+    if kind == "second-receiver":
+        # two application threads receiving on ONE session: outside the property's quantifier (single-waiter contract: the second one is
+        # answered Cancelled) - monitored only for what holds anyway (prefix, each byte once) and replayed by the acceptor
+        n = rng.range(1, 4)
+        io = []
+        for k in range(n):
+            io += ["y"] * rng.range(0, 2) + ["d:1:%s" % hexs(payload(1, 2 * k, 2))]
+        apps = [["m:1:s"] + ["r:1:%d:%d" % (rng.choice([1, 2, 100]), rng.choice([5, 50])) for _ in range(rng.range(1, 3))],
+                ["y"] * rng.range(0, 3) + ["r:1:%d:%d" % (rng.choice([1, 2, 100]), rng.choice([5, 50])) for _ in range(rng.range(1, 3))]]
+        return {"cat": "sched-second-receiver", "seed": rng.below(2 ** 31), "timeoutOneIn": rng.choice([0, 4]), "spuriousOneIn": 0, "maxbuf": 1000,
+                "io": io, "apps": apps, "sids": [1], "total": {1: 2 * n}, "uses_disabled": False, "overflow_possible": False, "fence": False,
+                "ends_async": False, "timed_threads": 2, "second_receiver": True}
     if kind == "wrapper":
         # receiveSyncCancellable: sub-calls timing out, arrivals between sub-calls, a cancel at every point of the loop
         n = rng.range(1, 4)
@@ -359,10 +470,14 @@ def gen_sched_case(rng, idx):
         if closes:
             io.append("c:1")
         app = ["m:1:s"]
-        for _ in range(rng.range(1, 3)):
+        canc = rng.chance(2, 3)
+        for i in range(rng.range(1, 4)):
+            if i and canc and rng.chance(2, 3):
+                app.append("xr:1")        # the calling thread re-arms its token between two calls: the next call reads PAST a cancelled one
             app.append("rc:1:%d:%d" % (rng.choice([1, 2, 3, 100]), rng.choice([0, 50, 120, 250, 350])))
-        canc = rng.chance(1, 2)
-        apps = [app + ["m:1:a"]]
+        # the program ends by draining: plain receives to EOF when the session closes, the Async switch otherwise - either way every
+        # byte that arrived must have been handed out when it is over
+        apps = [app + (["r:1:100:50"] * (n + 2) if closes else ["m:1:a"])]
         if canc:
             apps.append(["y"] * rng.range(0, 6) + ["x:1"])
         return {"cat": "sched-wrapper", "seed": rng.below(2 ** 31), "timeoutOneIn": rng.choice([0, 0, 4]), "spuriousOneIn": rng.choice([0, 0, 6]),
@@ -391,6 +506,7 @@ def gen_sched_case(rng, idx):
                 "apps": [app], "sids": [1], "total": {1: n}, "uses_disabled": False, "overflow_possible": False, "fence": False, "ends_async": True,
                 "timed_threads": 0}
     maxbuf = rng.choice([4, 8, 16, 64, 1000])
+    gc = rng.choice([0, 0, 1, 1024]) if kind == "two-sessions" else 1024
     nsess = 2 if kind == "two-sessions" else 1
     sids = [1, 2][:nsess]
     io = []
@@ -407,7 +523,7 @@ def gen_sched_case(rng, idx):
             io.append("d:%d:%s" % (s, hexs(payload(s, pos, ln))))
             pos += ln
         total[s] = pos
-    if kind in ("close-race", "mixed", "parked") and rng.chance(2, 3):
+    if kind in ("close-race", "mixed", "parked", "two-sessions") and rng.chance(2, 3):
         for s in sids:
             if rng.chance(2, 3):
                 io.append("c:%d" % s)
@@ -426,6 +542,10 @@ def gen_sched_case(rng, idx):
         elif kind == "midflush":
             if rng.chance(1, 2):
                 a.append("r:%d:%d:%d" % (s, rng.choice([1, 2, 100]), 5))
+            a.append("m:%d:a" % s)
+        elif kind == "fence" and rng.chance(1, 2):
+            # a flush racing the fence: the flush loop bails out (returns false) when teardown begins between two of its sections
+            a += ["y"] * rng.range(0, 3)
             a.append("m:%d:a" % s)
         elif kind == "fence":
             a.append("r:%d:%d:%d" % (s, rng.choice([1, 100]), 50))
@@ -451,7 +571,7 @@ def gen_sched_case(rng, idx):
         extra = [["y", "f:%d" % rng.below(2)]]
     overflow_possible = any(total[s] > maxbuf for s in sids)
     return {"cat": "sched-" + kind, "seed": rng.below(2 ** 31), "timeoutOneIn": rng.choice([0, 4, 8]), "spuriousOneIn": rng.choice([0, 0, 6]),
-            "maxbuf": maxbuf, "io": io, "apps": apps + extra, "sids": sids, "total": total, "uses_disabled": uses_disabled,
+            "maxbuf": maxbuf, "gc": gc, "io": io, "apps": apps + extra, "sids": sids, "total": total, "uses_disabled": uses_disabled,
             "overflow_possible": overflow_possible, "fence": kind == "fence", "ends_async": kind != "fence", "timed_threads": nsess}
 
 
@@ -460,7 +580,7 @@ def sched_line(c, choices=None):
         first = "e:" + ",".join(map(str, c["explore"]))
     else:
         first = ("c:" + ",".join(map(str, choices))) if choices is not None else ("c:" + c["choices"] if "choices" in c else str(c["seed"]))
-    parts = ["sched", first, str(c["timeoutOneIn"]), str(c["spuriousOneIn"]), str(c["maxbuf"]), "1024", "io"] + c["io"]
+    parts = ["sched", first, str(c["timeoutOneIn"]), str(c["spuriousOneIn"]), str(c["maxbuf"]), str(c.get("gc", 1024)), "io"] + c["io"]
     for a in c["apps"]:
         parts += ["app"] + a
     return " ".join(parts)
@@ -506,7 +626,9 @@ def sched_monitor(c, res):
         return ["T6: not every call returns under this schedule (%s): %s" % (res["status"], res["report"][:300])]
     arrived = {s: bytearray() for s in c["sids"]}
     out = {s: bytearray() for s in c["sids"]}
-    closed = set()
+    closed = set()           # the close handler has marked the session (ioClose)
+    closed_cb = set()        # the global close callback has been invoked (ioCloseCb): the close the APPLICATION sees
+    eof = set()
     cancelled = set()
     wcall_cancelled = {}     # sid -> the token was already cancelled when the running wrapper call was entered
     flush_on = {}            # sid -> a setReadMode(sid, Async) flush is in progress (began, has not returned)
@@ -517,8 +639,16 @@ def sched_monitor(c, res):
             arrived[int(f[1])].extend(unhex(f[2]))
         elif f[0] == "ioClose":
             closed.add(int(f[1]))
-            if flush_on.get(int(f[1])):
+            if flush_on.get(int(f[1])) and int(f[1]) not in closed_cb:
                 grace.add(int(f[1]))
+        elif f[0] == "ioCloseCb":
+            if flush_on.get(int(f[1])) and int(f[1]) not in closed:
+                grace.add(int(f[1]))      # (unrepaired order) a flush already in progress when the callback is invoked
+            closed_cb.add(int(f[1]))
+            if int(f[1]) not in closed:
+                pass                      # the callback before the mark: the T8 monitor below decides (FC03c)
+        elif f[0] == "reset":
+            cancelled.discard(int(f[1]))
         elif f[0] == "setMode":
             sidm = int(f[1])
             if "modeRet:" not in st["obs"]:
@@ -541,9 +671,10 @@ def sched_monitor(c, res):
             if e.startswith("cb:"):
                 _, s2, hx = e.split(":")
                 out[int(s2)].extend(unhex(hx))
-                if int(s2) in closed and int(s2) not in grace:
-                    bad.append("T8: %d byte(s) of session %d were handed to the data callback (step `%s`) AFTER the session's close had been "
-                               "processed and no flush was in progress at the close" % (len(hx) // 2, int(s2), st["step"]))
+                if (int(s2) in closed or int(s2) in closed_cb) and int(s2) not in grace:
+                    bad.append("T8: %d byte(s) of session %d were handed to the data callback (step `%s`) AFTER the session's close %s "
+                               "and no flush was in progress at the close" % (len(hx) // 2, int(s2), st["step"],
+                               "callback had been invoked" if int(s2) in closed_cb else "had been processed"))
             elif e.startswith("recvRet:") or e.startswith("wrapRet:"):
                 wrapped = e.startswith("wrapRet:")
                 if "!cancel-late" in e and c.get("timed_threads", 2) <= 1:
@@ -567,13 +698,14 @@ def sched_monitor(c, res):
                         bad.append("W2: receiveSyncCancellable entered with a cancelled token answered %s" % ":".join(p[2:]))
                     if p[2] == "err" and p[3] == "Cancelled" and s2 not in cancelled:
                         bad.append("W2: receiveSyncCancellable answered Cancelled although its token was never cancelled")
-                elif p[2] == "err" and p[3] == "Cancelled":
+                elif p[2] == "err" and p[3] == "Cancelled" and not c.get("second_receiver"):
                     bad.append("T1: receiveSync answered Cancelled although no other receive or flush of session %d was in progress" % s2)
                 if p[2] == "ok":
                     out[s2].extend(unhex(p[3]))
                 elif p[3] == "ShuttingDown" and not c["fence"]:
                     bad.append("T1: receive answered ShuttingDown on a live session although no teardown began")
                 elif p[3] == "PeerClosed":
+                    eof.add(s2)
                     if s2 not in closed:
                         bad.append("T2: PeerClosed reported before the engine closed session %d" % s2)
                     if not c["uses_disabled"] and not c["overflow_possible"] and not c["fence"] and bytes(out[s2]) != bytes(arrived[s2]):
@@ -597,8 +729,8 @@ def sched_monitor(c, res):
     if c["ends_async"] and not c["uses_disabled"] and not c["overflow_possible"]:
         for s2 in c["sids"]:
             # every arrival that happened is delivered once the program (which ends in Async mode, or after the close) is over
-            if s2 in closed:
-                continue
+            if s2 in closed and s2 not in eof:
+                continue              # closed and not drained to EOF by this program: the tail is still in the tombstone
             if bytes(out[s2]) != bytes(arrived[s2]):
                 bad.append("T1/T3: the program ended in Async mode but session %d got %d of %d arrived bytes" % (s2, len(out[s2]), len(arrived[s2])))
     return bad
@@ -623,7 +755,7 @@ def run_sched(ctx, hb, cases, dist, keep=False):
         res = parse_sched(l)
         parsed.append(res)
         a = len(model_lines)
-        model_lines.append("reset %d 1024 1" % c["maxbuf"])
+        model_lines.append("reset %d %d 1" % (c["maxbuf"], c.get("gc", 1024)))
         nst = 0
         if res:
             for st in res["steps"]:
@@ -647,13 +779,47 @@ def run_sched(ctx, hb, cases, dist, keep=False):
         if res:
             dist["sched-status:" + res["status"]] = dist.get("sched-status:" + res["status"], 0) + 1
             nsw = sum(1 for x, y in zip(res["steps"], res["steps"][1:]) if x["tid"] != y["tid"])
+            canc, flushing_sid, fenced, closedm, eofs = set(), set(), False, set(), set()
             for st in res["steps"]:
-                dist["step:" + st["step"].split()[0]] = dist.get("step:" + st["step"].split()[0], 0) + 1
+                f = st["step"].split()
+                dist["step:" + f[0]] = dist.get("step:" + f[0], 0) + 1
+                # branch counters measured on the recorded trace of the REAL class (review F4/F8)
+                if f[0] == "cancel":
+                    canc.add(f[1])
+                elif f[0] == "reset":
+                    canc.discard(f[1])
+                elif f[0] == "fence":
+                    fenced = True
+                elif f[0] == "ioClose":
+                    closedm.add(f[1])
+                elif f[0] == "setMode" and f[2] == "a" and "modeRet:" not in st["obs"]:
+                    flushing_sid.add(f[1])
+                elif f[0] == "ioData" and f[1] in flushing_sid:
+                    dist["branch:mid-flush-arrival"] = dist.get("branch:mid-flush-arrival", 0) + 1
                 for e in st["obs"].split(";"):
+                    if e.startswith("modeRet:") and f[0] == "flushStep":
+                        flushing_sid.discard(f[1])
+                        if e.endswith(":0") and fenced:
+                            dist["branch:flush-teardown-bail"] = dist.get("branch:flush-teardown-bail", 0) + 1
+                    if e.startswith("cb:") and f[0] == "flushStep":
+                        dist["branch:flush-delivery"] = dist.get("branch:flush-delivery", 0) + 1
+                    if e.startswith("recvRet:"):
+                        r = e.split("!")[0].split(":", 2)[2]
+                        r = "ok" if r.startswith("ok:") else r
+                        dist["recvRet:" + r] = dist.get("recvRet:" + r, 0) + 1
+                        if r == "err:PeerClosed":
+                            eofs.add(f[1])
                     if e.startswith("wrapRet:"):
                         r = e.split("!")[0].split(":", 2)[2]
                         r = "ok" if r.startswith("ok:") else r
                         dist["wrapRet:" + r] = dist.get("wrapRet:" + r, 0) + 1
+                        if r == "err:PeerClosed":
+                            eofs.add(f[1])
+                        if r == "ok" and f[1] in canc:
+                            dist["branch:C03-d-window(ok-returned-with-token-cancelled)"] = dist.get("branch:C03-d-window(ok-returned-with-token-cancelled)", 0) + 1
+            for sid, fin in res["final"].items():
+                if str(sid) in closedm and str(sid) not in eofs and " b=-" in " " + fin:
+                    dist["branch:gc-erasure"] = dist.get("branch:gc-erasure", 0) + 1
         ctx.count_case(sched_line(c) + "|" + (res["choices"] if res else ""), nontrivial=nsw >= 2)
         if len(ctx.cov["samples"]) < 6 and ctx.rng.chance(1, 60) and res:
             ctx.sample({"cat": c["cat"], "line": sched_line(c)[:300], "steps": ["%d:%s=>%s" % (s["tid"], s["step"], s["obs"]) for s in res["steps"][:14]]})
@@ -705,6 +871,11 @@ EXPLORE_PROGRAMS = [
     ("disabled-async", 1000, ["d:1:07", "d:1:16"], [["m:1:s", "m:1:d", "m:1:a"]], {"ends_async": True, "uses_disabled": True}),
     # T8 / FC02a: the close racing the application's attempts to put the id back into Sync and flush it
     ("close-vs-rearm", 1000, ["d:1:0716", "c:1"], [["m:1:s", "m:1:s", "m:1:a", "r:1:8:5"]], {"ends_async": False}),
+    # T8 from the close CALLBACK / FC03c: the Async switch at every point of the close handler (before the mark, between the mark and
+    # the callback, after the callback)
+    ("close-window", 1000, ["d:1:0716", "c:1"], [["m:1:s", "m:1:a", "r:1:8:5"]], {"ends_async": False}),
+    # token reset between two cancellable calls, a cancel at every point
+    ("wrapper-cancel-reset", 1000, ["d:1:0716", "d:1:25"], [["m:1:s", "rc:1:8:120", "xr:1", "rc:1:8:120", "m:1:a"], ["x:1"]], {"ends_async": True}),
 ]
 
 
@@ -763,6 +934,8 @@ def explore(ctx, hb, dist, bound, max_runs):
                         frontier.append((list(p), spent + cost))
         dist["explore:%s:runs" % name] = runs
         dist["explore:%s:complete(K=%d)" % (name, bound)] = 1 if complete else 0
+        if not complete:
+            ctx.extra.setdefault("explore_truncated", []).append("%s: stopped at %d runs with %d schedules still queued (K=%d)" % (name, runs, len(frontier), bound))
 
 
 # ------------------------------------------------------------------ run
@@ -775,7 +948,7 @@ def run(ctx: Ctx):
     if ok_build:
         ctx.audit(MODULES, OBLIGATIONS)
         if not quick:
-            ctx.leanchecker(MODULES + ["IoraModel.Lemmas.SyncRecv", "IoraModel.Lemmas.SyncRecvG", "IoraModel.Lemmas.SyncRecvT8", "IoraModel.Lemmas.SyncRecvW", "IoraModel.Model.SyncRecv", "IoraModel.Model.SyncRecvW", "IoraModel.Model.SyncRecvGen", "IoraModel.Model.TsyncFacts", "IoraModel.Gen.TsyncSkel"])
+            ctx.leanchecker(MODULES + ["IoraModel.Lemmas.SyncRecv", "IoraModel.Lemmas.SyncRecvG", "IoraModel.Lemmas.SyncRecvT8", "IoraModel.Lemmas.SyncRecvG3", "IoraModel.Lemmas.SyncRecvW", "IoraModel.Model.SyncRecv", "IoraModel.Model.SyncRecvW", "IoraModel.Model.SyncRecvGen", "IoraModel.Model.TsyncFacts", "IoraModel.Gen.TsyncSkel"])
     else:
         ctx.cov["obligations"] = len(OBLIGATIONS)
     hb = ctx.build_harness("harness/c03_syncrecv.cpp", sanitize=True, flags=[DETSCHED])
@@ -786,15 +959,41 @@ def run(ctx: Ctx):
         cases = [c for c in corpus if c.get("cat") != "sched"] + [gen_seq_case(r1, big=(i % 12 == 0)) for i in range(700 * scale)]
         res = ctx.lockstep("syncrecv", hb, cases)
         n_mis = 0
+        def bump(key, n=1):
+            dist[key] = dist.get(key, 0) + n
         for c, impl, model in res:
             dist[c["cat"]] = dist.get(c["cat"], 0) + 1
+            nb_prev = None
+            gmodes = {}
             for op, l in zip(c["ops"], impl):
                 k = op.split()[0]
                 dist["op:" + k] = dist.get("op:" + k, 0) + 1
-                if k == "recv":
-                    r = l.split()[0]
+                head, _, state = l.partition(" | ")
+                stt = dict(kv.split("=") for kv in state.split() if "=" in kv)
+                # branch counters measured on the REAL class's answers (review F8)
+                if k in ("recv", "recvc", "recvcx", "recvlong"):
+                    r = l.split()[0].split("!")[0]
                     r = "ok" if r.startswith("ok:") else r
-                    dist["recv:" + r] = dist.get("recv:" + r, 0) + 1
+                    dist[k + ":" + r] = dist.get(k + ":" + r, 0) + 1
+                    if r == "ok" and stt.get("b", "-") not in ("-", "0"):
+                        bump("branch:partial-drain")
+                    if k == "recvcx" and r == "ok":
+                        bump("branch:C03-d-window(ok-returned-with-token-cancelled)")
+                if k == "mode":
+                    sidm = op.split()[1]
+                    if "cb:" in head:
+                        bump("branch:flush-delivery")
+                        if gmodes.get(sidm) == "d":
+                            bump("branch:flush-delivery-from-Disabled")
+                    if head.startswith("ret:1") and stt.get("c") != "1":
+                        gmodes[sidm] = op.split()[2]
+                if k in ("close", "closew"):
+                    if nb_prev is not None and "nb" in stt and int(stt["nb"]) < nb_prev:
+                        bump("branch:gc-erasure", nb_prev - int(stt["nb"]))
+                    if k == "closew":
+                        bump("branch:close-window-switch(ret:%s)" % head.split("ret:")[-1][:1])
+                if "nb" in stt and k != "fence":
+                    nb_prev = int(stt["nb"])
                 if k == "data":
                     n = 0 if op.split()[2] == "-" else len(op.split()[2]) // 2
                     b = "0" if n == 0 else "1-16" if n <= 16 else "17-1000" if n <= 1000 else ">1000"
@@ -804,6 +1003,13 @@ def run(ctx: Ctx):
                 ctx.sample({"cat": c["cat"], "ops": [o[:80] for o in c["ops"][:10]], "impl": [l[:100] for l in impl[:10]]})
             fails = seq_monitor(c, impl)
             mism = [(i, a, b) for i, (a, b) in enumerate(zip(impl, model)) if TAG.sub("", a) != b]
+            if (fails or mism) and (any(op.split()[0] in ("recvlong", "recvcx") for op in c["ops"]) or any("!late" in l for l in impl)):
+                # real-time ops (a second thread, the 1.5 s lateness tag): a stalled machine can reorder the chunk and the receive or
+                # stretch a wait; the single case is run once more and judged on the second run only (review F7)
+                bump("retry:real-time-case")
+                (c, impl, model), = ctx.lockstep("syncrecv", hb, [c])
+                fails = seq_monitor(c, impl)
+                mism = [(i, a, b) for i, (a, b) in enumerate(zip(impl, model)) if TAG.sub("", a) != b]
             if fails:
                 report_seq(ctx, hb, c, impl, model, fails)
             elif mism:
@@ -819,7 +1025,7 @@ def run(ctx: Ctx):
         scases = [c for c in corpus if c.get("cat") == "sched"] + [gen_sched_case(r2, i) for i in range(500 * scale)]
         run_sched(ctx, hb, scases, dist)
         # bounded-exhaustive: quick = every schedule with at most 1 preemption (capped), thorough = at most 2 preemptions
-        explore(ctx, hb, dist, bound=1 if quick else 2, max_runs=400 if quick else 20000)
+        explore(ctx, hb, dist, bound=1 if quick else 2, max_runs=600 if quick else 20000)
     ctx.extra["input_distribution"] = dist
     ctx.extra["repo_tree_sha"] = ctx.repo_tree_sha(ANCHOR_FILES)
     ctx.extra["not_proved"] = [
@@ -828,16 +1034,20 @@ def run(ctx: Ctx):
         "sub-interval arithmetic (skeleton_pinned, decide); monitors: no Timeout before the requested time (real and virtual), none later than "
         "+5 ms of virtual time in programs with one waiting thread, +1.5 s real time sequentially; timeouts up to milliseconds::max() generated",
         "schedules are sampled at random in both tiers; on top, EVERY schedule with at most K preemptions (K=1 quick, capped; K=2 thorough) of "
-        "six small programs is enumerated - bounded, not exhaustive, exploration (input_distribution explore:*)",
+        "eight small programs is enumerated - bounded, not exhaustive, exploration (input_distribution explore:*; a truncated enumeration "
+        "is listed in explore_truncated)",
         "two application threads using one session concurrently (a receive overlapping a setReadMode(Async) of the same session, or two "
         "concurrent flushes) are outside the property's quantifier and outside `Disciplined`; the code does not reject them",
         "teardown interplay (fence) is part of the model but the stream theorems about drops under the fence are C05's",
     ]
     ctx.assumptions += [
-        "T8 does not cover one situation, shown by an example in Props/C03.lean to be what the code does: a setReadMode(Async) flush "
-        "already in progress on another thread when the close is processed goes on handing the buffered bytes to the callback "
-        "(modelled as repaired, fixes/FC02a-*: setReadMode is a no-op for a closed tombstone, so a dead id cannot be put back into "
-        "Sync/Disabled and flushed later)",
+        "T8 is measured from the close CALLBACK the application sees (Ev.closeCb / the harness's gclose event; modelled as repaired, "
+        "fixes/FC03c-*: the handler marks the session closed BEFORE it invokes the callbacks, and fixes/FC02a-*: setReadMode is a no-op for a "
+        "closed tombstone). It does not cover one situation, shown by examples in Props/C03.lean to be what the code does: a "
+        "setReadMode(Async) flush ALREADY in progress on another thread when the close is processed (closeGrace) goes on handing the bytes "
+        "it took to the callback",
+        "CancellationToken::reset() is called between calls only, never while a call using the token is in flight (the header's own "
+        "contract; okW)",
         "engine contract (C02): no data and no second close for a closed session id (zero-length chunks are legal arrivals and are generated)",
         "a data callback is registered (the flush and the Async path silently discard bytes when none is set)",
         "tombstone GC (syncBufferGcThreshold) may erase a drained tombstone: a later receive on that id then waits for its timeout (T7 is stated without a GC pass)",
@@ -855,16 +1065,19 @@ def report_seq(ctx, hb, c, impl, model, fails):
         return
     cls = fails[0].split(":")[0]
 
+    realtime = any(o.split()[0] in ("recvlong", "recvcx") for o in ops)
+
     def still(sub):
         sub = [ops[0]] + sub
-        out, rc, err = ctx.run_lines([hb], sub, timeout=60)
+        # a second-thread receive whose `mode s` was removed by the shrinker parks for its whole (huge) timeout: short fuse
+        out, rc, err = ctx.run_lines([hb], sub, timeout=8 if realtime else 60)
         out = out + ["crash:" + str(rc)] * (len(sub) - len(out))
         cc = dict(c)
         cc["ops"] = sub
         return any(f.split(":")[0] == cls for f in seq_monitor(cc, out))
     try:
         if len(ops) > 3 and still(ops[1:]):
-            ops = [ops[0]] + ddmin(ops[1:], still, max_tests=120)
+            ops = [ops[0]] + ddmin(ops[1:], still, max_tests=40 if realtime else 120)
     except Exception:
         pass
     out, rc, err = ctx.run_lines([hb], ops, timeout=60)
